@@ -436,3 +436,56 @@ def checks(tier):
                bounds="3 writes, each of length 0, 1, 30000, 65510, 65511 or 65512 (around the default 65515-byte buffer)",
                outside="other lengths", tiers=q),
     ]
+
+
+# ---------------------------------------------------------------------------------------------
+# (g) a buffer that holds complete frames followed by a fully symbolic rest (second-frame arithmetic)
+_b19g = checks
+_LEADS = [b"0000", b"0005z", b"00000000", b"0006ab0000"]
+
+
+def h_parser_after_frames(eng, n=5, lead=0):
+    """PktLineParser.parse on (complete leading frames) + (every byte string of length n), in one call and cut at every
+    position of the symbolic rest: the frames and the tail are exactly the reference parser's - in particular an incomplete
+    second frame whose declared size would fit into the whole buffer stays in the tail"""
+    head = _LEADS[lead]
+    rest = eng.bytes("data", n)
+    data = _cat([head, rest], eng)
+    cut = len(head) + eng.choice("cut", n + 1)
+    for chunks in ([data], [data[:cut], data[cut:]]):
+        got = []
+        p = PR.PktLineParser(got.append)
+        try:
+            for c in chunks:
+                p.parse(c)
+            err = False
+        except GitProtocolError:
+            err = True
+        try:
+            frames, consumed = ref_parse_stream(elems_of(data))
+            rerr = False
+        except ValueError:
+            rerr = True
+        eng.prove(err == rerr, "protocol error iff the reference parser refuses")
+        if err:
+            return
+        eng.prove(len(got) == len(frames), "same number of frames")
+        for a, b in zip(got, frames):
+            if a is None or b is None:
+                eng.prove(a is None and b is None, "flush packets agree")
+            else:
+                eng.prove(a == _out(b), "payload agrees")
+        eng.prove(p.get_tail() == _out(elems_of(data)[consumed:]), "tail is exactly the unconsumed rest")
+
+
+def checks(tier):
+    q = ("quick", "thorough")
+    enc = "dulwich.protocol."
+    return _b19g(tier) + [
+        KCheck("C19g.parser_after_frames", h_parser_after_frames,
+               parts=[{"n": n, "lead": k} for k in range(len(_LEADS)) for n in (4, 5, 6)],
+               encoded=[enc + "PktLineParser.parse", enc + "PktLineParser.get_tail", enc + "_parse_pkt_line_length"],
+               bounds="1-2 complete leading frames (flush, 1-byte payload, two flushes, 2-byte payload + flush) followed by every "
+                      "byte string of length 4..6, parsed in one call and cut at every position of the symbolic part",
+               outside="longer symbolic parts (C19d.parser_total_9 takes 8-9 fully symbolic bytes in the thorough tier)", tiers=q),
+    ]
